@@ -172,3 +172,476 @@ def determine_next_paths(repo, folder, dn, op):
         return DNPath(dict(asg), r, it, lookups)
 
     return [p for _, p in explore(run, max_paths=512)]
+
+
+# ---------------------------------------------------------------------------
+# bounded generic-method model of MethodAnalysis._create_basic_block
+# ---------------------------------------------------------------------------
+METHOD, VM = Sym("method"), Sym("vm")
+EXC = Sym("EXC")
+E_ELEM = Sym("elem", EXC, -1)
+E_START = Sym("index", E_ELEM, 0)
+E_HANDLERS = Sym("slice", E_ELEM, 2, None)
+H_ELEM = Sym("elem", E_HANDLERS, -1)
+H_ADDR = Sym("index", H_ELEM, 1)
+
+
+def LENK(k):
+    return Sym("len", k)
+
+
+def INSK(k):
+    return Sym("ins", k)
+
+
+def IDXK(k):
+    return lin({LENK(j): 1 for j in range(k)}, 0)
+
+
+def DNK(k):
+    return Sym("DN", k)
+
+
+class ModelPath:
+    """one explored path of the generic-method model"""
+
+    def __init__(self):
+        self.asg = None
+        self.entered = False
+        self.raised = None
+        self.blocks = []        # [(obj, start, end, nb, last_length, [pushed ins])]
+        self.set_childs = []    # [(block obj, arg)]
+        self.dn_bad = []        # [(args, node)] determineNext called with foreign arguments
+        self.exc_bad = []
+        self.spec = None        # [[k,...],...]
+        self.conds = []         # consulted atoms
+        self.symloops = []
+        self.pops = 0
+
+
+def _interpretable(atom):
+    """is the consulted fact one the specification can talk about?"""
+    kind = atom[0]
+    txt = " ".join(str(x) for x in atom[1:])
+    if kind == "in":
+        return atom[2].startswith("DN(") or atom[2].startswith("EXC") or "elem(EXC)" in atom[2]
+    if kind == "eq0":
+        return "EXC" in txt or "DN(" in txt
+    return False
+
+
+def run_block_model(repo, folder, ma_cls, dn_func, de_func, basic_ops, ops, max_paths=6000):
+    """ops: tuple of K concrete opcodes, one per generic instruction.  -> [ModelPath]"""
+    K = len(ops)
+    init = ma_cls.lookup("__init__")
+    cbb = ma_cls.lookup("_create_basic_block")
+    if init is None or cbb is None:
+        raise AnalysisError("anchor vanished: MethodAnalysis.__init__/_create_basic_block")
+    bflag = [op in basic_ops for op in ops]
+    instr_pairs = [(IDXK(k), INSK(k)) for k in range(K)]
+    preset = {("c", "isnone", "vm"): 0, ("c", "isa", "method", "ExternalMethod"): 0,
+              ("c", "truthy", key(mcall(METHOD, "get_code"))): 1}
+
+    def run(asg0):
+        asg = dict(preset)
+        asg.update(asg0)
+        P = ModelPath()
+        P.asg = asg
+        pushes = {}
+
+        def h_method(it, recv, name, args, kwargs, node, func):
+            if recv == METHOD:
+                if name == "get_instructions_idx" and not args:
+                    return list(instr_pairs)
+                if name == "get_instructions" and not args:
+                    return [INSK(k) for k in range(K)]
+                return NotImplemented
+            if isinstance(recv, Sym) and recv.op == "ins" and not args:
+                k = recv.args[0]
+                if name == "get_op_value":
+                    return ops[k]
+                if name == "get_length":
+                    return LENK(k)
+                return NotImplemented
+            if isinstance(recv, Obj) and recv.cls is not None and recv.cls.name == "DEXBasicBlock":
+                if name == "set_childs":
+                    P.set_childs.append((recv, args[0] if args else None))
+                    return None
+                if name == "push" and len(args) == 1:
+                    pushes.setdefault(id(recv), []).append(args[0])
+                    return NotImplemented
+            return NotImplemented
+
+        def h_repo_call(it, fobj, args, kwargs, node, func):
+            if fobj is dn_func or fobj.qualname == dn_func.qualname:
+                k = args[0].args[0] if args and isinstance(args[0], Sym) and args[0].op == "ins" else None
+                if k is None or len(args) != 3 or not lin_eq(args[1], IDXK(k)) or args[2] != METHOD:
+                    P.dn_bad.append((tuple(args), node))
+                    return Sym("DN?", *[Sym(key(a)) for a in args])
+                return DNK(k)
+            if fobj is de_func or fobj.qualname == de_func.qualname:
+                if len(args) != 2 or args[1] != METHOD:
+                    P.exc_bad.append((tuple(args), node))
+                return EXC
+            return NotImplemented
+
+        def h_global(it, name, func):
+            if name == "BasicOPCODES":
+                return frozenset(basic_ops)
+            return NotImplemented
+
+        def positive(a):
+            return isinstance(a, Sym) and a.op == "len"
+
+        it = SymInterp(repo, folder, asg=asg,
+                       hooks={"method": h_method, "repo_call": h_repo_call, "global": h_global,
+                              "positive": positive, "call": isa_hook},
+                       instantiate=("BasicBlocks", "DEXBasicBlock"))
+        self_obj = it.new_obj(ma_cls, "self")
+        try:
+            it.call_function(init, [VM, METHOD], recv=self_obj)
+        except Raised as ex:
+            P.raised = ex
+        P.entered = any(t[0] == "enter" and t[1] == cbb.qualname for t in it.trace)
+        if not P.entered or P.raised is not None:
+            P.conds = [t[1] for t in it.trace if t[0] == "cond"]
+            return P
+        conts = [t[2] for t in it.trace if t[0] == "new" and t[1] == "BasicBlocks" and t[2] is not None]
+        if len(conts) != 1:
+            raise AnalysisError("MethodAnalysis no longer creates exactly one BasicBlocks container (%d)" % len(conts))
+        cont = conts[0]
+        gets = cont.cls.lookup("gets")
+        if gets is None:
+            raise AnalysisError("anchor vanished: BasicBlocks.gets")
+        blist = it.call_function(gets, [], recv=cont)
+        if not isinstance(blist, list) or any(not isinstance(b, Obj) for b in blist):
+            raise AnalysisError("BasicBlocks.gets() does not evaluate to the list of blocks (%s)" % show(blist)[:80])
+        bcls = blist[0].cls if blist else None
+        for b in blist:
+            vals = []
+            for g in ("get_start", "get_end", "get_nb_instructions", "get_last_length"):
+                f = b.cls.lookup(g)
+                if f is None:
+                    raise AnalysisError("anchor vanished: DEXBasicBlock.%s" % g)
+                vals.append(it.call_function(f, [], recv=b))
+            P.blocks.append((b, vals[0], vals[1], vals[2], vals[3], list(pushes.get(id(b), []))))
+        P.pops = sum(1 for t in it.trace if t[0] == "list.pop")
+        P.symloops = [t[1] for t in it.trace if t[0] == "symloop"]
+        # ---- specification partition, evaluated on the same atoms ----------------
+        def leader(k):
+            idx = IDXK(k)
+            for j in range(K):
+                if bflag[j] and it.atom("in", key(idx), key(DNK(j))):
+                    return "branch target of instruction %d" % j
+            if it.eq(idx, E_START):
+                return "try start"
+            if it.eq(idx, H_ADDR):
+                return "handler address"
+            return None
+
+        spec, cur, why = [], [], {}
+        for k in range(K):
+            if cur:
+                w = leader(k)
+                if w:
+                    spec.append(cur)
+                    cur = []
+                    why[k] = w
+            cur.append(k)
+            if bflag[k]:
+                spec.append(cur)
+                cur = []
+        if cur:
+            spec.append(cur)
+        P.spec = spec
+        P.why = why
+        P.conds = [t[1] for t in it.trace if t[0] == "cond"]
+        return P
+
+    return [p for _, p in explore(run, max_paths=max_paths)]
+
+
+def compare_partition(P, ops, basic_ops):
+    """-> list of (category, message) describing how the blocks of path P differ from the
+    specification partition; [] when they agree."""
+    K = len(ops)
+    out = []
+    got = []
+    for (b, start, end, nb, ll, pushed) in P.blocks:
+        ks = []
+        for x in pushed:
+            if isinstance(x, Sym) and x.op == "ins":
+                ks.append(x.args[0])
+            else:
+                ks.append(None)
+        got.append(ks)
+    spec = P.spec
+    scen = "instructions " + ", ".join("#%d=%s" % (k, "branch" if ops[k] in basic_ops else "plain") for k in range(K))
+    if P.why:
+        scen += "; " + ", ".join("#%d is a %s" % (k, w) for k, w in sorted(P.why.items()))
+    if got != spec:
+        flat = [k for ks in got for k in ks]
+        if flat != list(range(K)):
+            out.append(("coverage", "blocks hold instructions %s, expected every instruction exactly once in order (%s)" % (got, scen)))
+        elif [] in got:
+            out.append(("empty-block", "an empty block is left in the list: %s, expected %s (%s)" % (got, spec, scen)))
+        else:
+            # where does the first difference come from?
+            cat = "partition"
+            gb = {ks[0] for ks in got}
+            sb = {ks[0] for ks in spec}
+            miss = sorted(sb - gb)
+            extra = sorted(gb - sb)
+            if miss:
+                k = miss[0]
+                if k in P.why:
+                    w = P.why[k]
+                    cat = "leader/" + ("branch-target" if w.startswith("branch") else w.replace(" ", "-"))
+                else:
+                    cat = "split-after-branch"
+            elif extra:
+                cat = "extra-split"
+            out.append((cat, "blocks %s, expected %s (%s)" % (got, spec, scen)))
+        return out
+    for (b, start, end, nb, ll, pushed), ks in zip(P.blocks, spec):
+        es = IDXK(ks[0])
+        ee = lin({LENK(j): 1 for j in range(ks[-1] + 1)}, 0)
+        if not lin_eq(start, es):
+            out.append(("contiguity/start", "block %s starts at %s, expected %s (%s)" % (ks, show(start), show(es), scen)))
+        if not lin_eq(end, ee):
+            out.append(("contiguity/end", "block %s ends at %s, expected %s (%s)" % (ks, show(end), show(ee), scen)))
+        if not (isinstance(nb, int) and nb == len(ks)):
+            out.append(("count", "block %s reports %s instructions, expected %d (%s)" % (ks, show(nb), len(ks), scen)))
+        if not lin_eq(ll, LENK(ks[-1])):
+            out.append(("last-length", "block %s reports last length %s, expected %s (%s)" % (ks, show(ll), show(LENK(ks[-1])), scen)))
+    return out
+
+
+def compare_callsite(P, ops, basic_ops):
+    """set_childs must be called once per final block with determineNext's result for the
+    block's last instruction (or [] when that instruction is not a branch)."""
+    out = []
+    final = [b for (b, *_rest) in P.blocks]
+    calls = {}
+    for b, arg in P.set_childs:
+        calls.setdefault(id(b), []).append(arg)
+    for (b, start, end, nb, ll, pushed) in P.blocks:
+        last = pushed[-1] if pushed else None
+        k = last.args[0] if isinstance(last, Sym) and last.op == "ins" else None
+        c = calls.get(id(b), [])
+        if len(c) != 1:
+            out.append(("callsite/once", "set_childs is called %d times for the block ending in instruction %s" % (len(c), k)))
+            continue
+        arg = c[0]
+        if k is not None and ops[k] in basic_ops:
+            if arg != DNK(k):
+                out.append(("callsite/branch", "block ending in branch instruction #%d gets successors %s, expected determineNext(ins#%d, idx#%d)" % (k, show(arg)[:80], k, k)))
+        else:
+            if not (isinstance(arg, (list, tuple)) and len(arg) == 0):
+                out.append(("callsite/fallthrough", "block ending in plain instruction #%s gets successors %s, expected [] (fall through)" % (k, show(arg)[:80])))
+    extra = [b for b, _ in P.set_childs if not any(b is f for f in final)]
+    if extra:
+        out.append(("callsite/stale", "set_childs is called on %d block(s) that are not in the final list" % len(extra)))
+    return out
+
+
+# ---------------------------------------------------------------------------
+# DEXBasicBlock.set_childs / push in isolation
+# ---------------------------------------------------------------------------
+CTX = Sym("ctx")
+BSTART = Sym("S")
+
+
+def T(i):
+    return Sym("target", i)
+
+
+class ChildsPath:
+    def __init__(self):
+        self.asg = None
+        self.raised = None
+        self.problems = []      # [(category, message)]
+        self.n_children = 0
+
+
+def _new_block(it, bb_cls, start):
+    init = bb_cls.lookup("__init__")
+    if init is None or len(init.params()) != 5:
+        raise AnalysisError("DEXBasicBlock.__init__ no longer takes (start, vm, method, context)")
+    return it.construct(bb_cls, [start, VM, METHOD, CTX])
+
+
+def _getter(it, obj, name):
+    f = obj.cls.lookup(name)
+    if f is None:
+        raise AnalysisError("anchor vanished: %s.%s" % (obj.cls.name, name))
+    return it.call_function(f, [], recv=obj)
+
+
+def _ins_hook(ops):
+    def h(it, recv, name, args, kwargs, node, func):
+        if isinstance(recv, Sym) and recv.op == "ins" and not args:
+            k = recv.args[0]
+            if name == "get_op_value":
+                return ops[k]
+            if name == "get_length":
+                return LENK(k)
+        return NotImplemented
+    return h
+
+
+def _positive(a):
+    return isinstance(a, Sym) and a.op == "len"
+
+
+def set_childs_paths(repo, folder, bb_cls, values, label):
+    """interpret  blk.set_childs(values)  for a block holding two generic instructions."""
+    sc = bb_cls.lookup("set_childs")
+    push = bb_cls.lookup("push")
+    if sc is None or push is None or len(sc.params()) != 2:
+        raise AnalysisError("anchor vanished: DEXBasicBlock.set_childs(values)/push")
+    last_addr = lin({BSTART: 1, LENK(0): 1})
+    end = lin({BSTART: 1, LENK(0): 1, LENK(1): 1})
+
+    def run(asg):
+        P = ChildsPath()
+        P.asg = dict(asg)
+        found = {}
+        lookups = []
+        ih = _ins_hook((0, 0))
+
+        def h_method(it, recv, name, args, kwargs, node, func):
+            if recv == CTX:
+                if name == "get_basic_block" and len(args) == 1:
+                    a = args[0]
+                    lookups.append(a)
+                    k = key(a)
+                    if it.atom("found", k):
+                        if k not in found:
+                            found[k] = _new_block(it, bb_cls, Sym("tstart", len(found)))
+                        return found[k]
+                    return None
+                raise AnalysisError("set_childs queries the block container through %s(), not get_basic_block(addr)" % name)
+            return ih(it, recv, name, args, kwargs, node, func)
+
+        it = SymInterp(repo, folder, asg=asg, hooks={"method": h_method, "positive": _positive, "call": isa_hook},
+                       instantiate=("DEXBasicBlock",))
+        blk = _new_block(it, bb_cls, BSTART)
+        it.call_function(push, [INSK(0)], recv=blk)
+        it.call_function(push, [INSK(1)], recv=blk)
+        try:
+            it.call_function(sc, [list(values)], recv=blk)
+        except Raised as ex:
+            P.raised = ex
+            P.problems.append(("raises", "set_childs(%s) raises %s" % (label, ex)))
+            return P
+        # ---- specification ---------------------------------------------------
+        exp = []
+        want_lookups = []
+        if len(values) == 0:
+            # fall through: the block that begins just past self.end
+            cands = [a for a in lookups if Lin.of(a) is not None]
+            ok = len(lookups) == 1 and cands and not (Lin.of(cands[0]) + Lin.of(end).scale(-1)).terms \
+                and (Lin.of(cands[0]) + Lin.of(end).scale(-1)).const in (0, 1)
+            if not ok:
+                P.problems.append(("fallthrough/lookup", "fall-through block is looked up at %s, expected the address just past the block end %s"
+                                   % ([show(a) for a in lookups], show(end))))
+            else:
+                k = key(lookups[0])
+                if it.atom("found", k):
+                    exp.append((last_addr, end, found.get(k)))
+        else:
+            for v in values:
+                if it.eq(v, -1):
+                    continue
+                want_lookups.append(v)
+                k = key(v)
+                if it.atom("found", k):
+                    exp.append((last_addr, v, found.get(k)))
+            if [key(a) for a in lookups] != [key(a) for a in want_lookups]:
+                P.problems.append(("targets/lookup", "set_childs(%s) looks up blocks at %s, expected %s (every target except -1, in order)"
+                                   % (label, [show(a) for a in lookups], [show(a) for a in want_lookups])))
+        childs = _getter(it, blk, "get_next")
+        P.n_children = len(exp)
+
+        def same_triple(c, e, mirrored=False):
+            if not (isinstance(c, tuple) and len(c) == 3):
+                return False
+            a, b = (e[1], e[0]) if mirrored else (e[0], e[1])
+            return lin_eq(c[0], a) and lin_eq(c[1], b) and c[2] is e[2]
+
+        if not (isinstance(childs, list) and len(childs) == len(exp) and all(same_triple(c, e) for c, e in zip(childs, exp))):
+            cat = "fallthrough/child" if len(values) == 0 else "targets/child"
+            P.problems.append((cat, "set_childs(%s) records successors %s, expected %s  [(address of last instruction, target address, block)]"
+                               % (label, _show_triples(childs), _show_triples(exp))))
+        # ---- mirror: fathers of every target -----------------------------------
+        for k, tb in found.items():
+            fathers = _getter(it, tb, "get_prev")
+            fexp = [(e[1], e[0], blk) for e in exp if e[2] is tb]
+            okf = isinstance(fathers, list) and len(fathers) == len(fexp) and all(
+                isinstance(c, tuple) and len(c) == 3 and lin_eq(c[0], e[0]) and lin_eq(c[1], e[1]) and c[2] is e[2]
+                for c, e in zip(fathers, fexp))
+            if not okf:
+                P.problems.append(("mirror", "after set_childs(%s) the target block at %s has predecessors %s, expected %s "
+                                   "[(target address, address of last instruction, this block)]"
+                                   % (label, k, _show_triples(fathers), _show_triples(fexp))))
+        own = _getter(it, blk, "get_prev")
+        if own != []:
+            P.problems.append(("mirror", "set_childs(%s) adds predecessors %s to the block itself" % (label, _show_triples(own))))
+        return P
+
+    return [p for _, p in explore(run, max_paths=2000)]
+
+
+def _show_triples(v):
+    if not isinstance(v, list):
+        return show(v)[:120]
+    out = []
+    for c in v:
+        if isinstance(c, tuple):
+            out.append("(" + ", ".join(("<%s>" % x.name) if isinstance(x, Obj) else show(x) for x in c) + ")")
+        else:
+            out.append(show(c))
+    return "[" + ", ".join(out) + "]"
+
+
+def push_problems(repo, folder, bb_cls, ops):
+    """DEXBasicBlock(start).push(i0).push(i1): end advances by exactly get_length, count by one."""
+    push = bb_cls.lookup("push")
+    if push is None or len(push.params()) != 2:
+        raise AnalysisError("anchor vanished: DEXBasicBlock.push(instruction)")
+    res = []
+
+    def run(asg):
+        out = []
+        it = SymInterp(repo, folder, asg=asg, hooks={"method": _ins_hook(ops), "positive": _positive, "call": isa_hook},
+                       instantiate=("DEXBasicBlock",))
+        blk = _new_block(it, bb_cls, BSTART)
+        st = [(_getter(it, blk, "get_start"), _getter(it, blk, "get_end"), _getter(it, blk, "get_nb_instructions"))]
+        if not (lin_eq(st[0][0], BSTART) and lin_eq(st[0][1], BSTART) and st[0][2] == 0 and isinstance(st[0][2], int)):
+            out.append(("ctor", "a new block at S has start=%s end=%s count=%s, expected S, S, 0" % tuple(show(x) for x in st[0])))
+        total = Lin.of(BSTART)
+        for n in range(len(ops)):
+            try:
+                it.call_function(push, [INSK(n)], recv=blk)
+            except Raised as ex:
+                out.append(("raises", "push raises %s" % ex))
+                return out
+            total = total + Lin.of(LENK(n))
+            s, e, c, ll = (_getter(it, blk, g) for g in ("get_start", "get_end", "get_nb_instructions", "get_last_length"))
+            if not lin_eq(s, BSTART):
+                out.append(("start", "push changes the block start to %s" % show(s)))
+            if not lin_eq(e, total.simplify()):
+                out.append(("end", "after %d push(es) end is %s, expected %s (start + sum of get_length())" % (n + 1, show(e), show(total.simplify()))))
+            if not (isinstance(c, int) and not isinstance(c, bool) and c == n + 1):
+                out.append(("count", "after %d push(es) get_nb_instructions() is %s" % (n + 1, show(c))))
+            if not lin_eq(ll, LENK(n)):
+                out.append(("last-length", "after pushing instruction #%d get_last_length() is %s, expected its get_length()" % (n, show(ll))))
+        return out
+
+    for _, r in explore(run, max_paths=256):
+        if isinstance(r, Raised):
+            res.append(("raises", "push raises %s" % r))
+        else:
+            res.extend(r)
+    return res
